@@ -103,9 +103,42 @@ func checkEOMWholeBuffer(c *Ctx, r *Report) {
 			}
 			return false
 		}
+		isTail := func(v ssa.Value) bool {
+			sl, ok := v.(*ssa.Slice)
+			return ok && sl.Low != nil && lenDerived(sl.Low, 0)
+		}
 		for _, l := range leaves {
-			if sl, ok := l.(*ssa.Slice); ok && sl.Low != nil && lenDerived(sl.Low, 0) {
+			if isTail(l) {
 				tailWindow = true
+			}
+			// a helper of the library that hands back a tail slice of its argument
+			if hc, ok := l.(*ssa.Call); ok {
+				if sc := hc.Call.StaticCallee(); sc != nil && sc.Pkg != nil && isLibPkgPath(sc.Pkg.Pkg.Path()) && sc.Blocks != nil {
+					allInstrs(sc, func(i2 ssa.Instruction) {
+						if ret, ok := i2.(*ssa.Return); ok {
+							for _, rv := range ret.Results {
+								rv = stripConv(rv)
+								if u, ok := rv.(*ssa.UnOp); ok {
+									if a, ok := u.X.(*ssa.Alloc); ok {
+										if v := lastStoreBefore(a, u); v != nil {
+											rv = v
+										}
+									}
+								}
+								if isTail(rv) {
+									tailWindow = true
+								}
+								if phi, ok := rv.(*ssa.Phi); ok {
+									for _, e := range phi.Edges {
+										if isTail(stripConv(e)) {
+											tailWindow = true
+										}
+									}
+								}
+							}
+						}
+					})
+				}
 			}
 		}
 		if !tailWindow {
